@@ -155,9 +155,23 @@ namespace options
     {
         std::vector<options::user_input> args;
 
+        bool after_double_dash = false;
+
         for (int i = 1; i < argc; i++)
         {
+            if (after_double_dash)
+            {
+                args.push_back(user_input(argv[i], user_input::verbatim_t{}));
+
+                continue;
+            }
+
             args.emplace_back(argv[i]);
+
+            if (args.back().is_double_dash())
+            {
+                after_double_dash = true;
+            }
         }
 
         return parse(args);
